@@ -129,6 +129,38 @@ type c06CRLF struct {
 	Index  int    `json:"index"`
 }
 
+// c06Member: a .gz file of three gzip members; the first ends exactly at compressed offset End1 and the
+// second exactly at End1+Gap (padding through the gzip header's extra field, which readers skip).
+type c06Member struct {
+	Format string `json:"format"`
+	End1   int    `json:"first_member_ends_at"`
+	Gap    int    `json:"second_member_length"`
+}
+
+// gzMemberOfSize compresses data into one gzip member of exactly size bytes (0: whatever it takes).
+func gzMemberOfSize(data []byte, size int) ([]byte, bool) {
+	build := func(extra int) []byte {
+		var zb bytes.Buffer
+		zw := gzip.NewWriter(&zb)
+		if extra >= 0 {
+			zw.Extra = bytes.Repeat([]byte{0}, extra) // RFC 1952 "extra field": skipped by every reader
+		}
+		zw.Write(data)
+		zw.Close()
+		return zb.Bytes()
+	}
+	base := build(-1)
+	if size == 0 {
+		return base, true
+	}
+	c := size - len(base) - 2 // an extra field of c bytes costs c+2 bytes
+	if c < 1 || c > 65535 {
+		return nil, false
+	}
+	out := build(c)
+	return out, len(out) == size
+}
+
 type c06File struct {
 	Format string `json:"format"`
 	What   string `json:"content"` // empty | one | many | error | large | missing
@@ -374,6 +406,60 @@ func runC06(r *core.Run) {
 				return core.Failf("%s via %s, content %s, CRLF=%v (%d bytes) decodes to %s, but the LF content in one piece decodes to %s", c.Format, c.Entry, c.Content, c.CRLF, len(data), trunc(renderObs(got), 300), trunc(renderObs(want), 300))
 			}
 			return core.Outcome{Class: c.Entry, Nontrivial: true, Evals: 2}
+		})
+
+	lo, hi := core.Pick(r, 4000, 3000), core.Pick(r, 4200, 9000)
+	r.Bound("gz-member-boundaries", fmt.Sprintf("three-member .gz files per format: the first member ends at every compressed offset %d..%d%s, the second is 4096 or 4097 bytes long (so a boundary at a multiple of 4096 is followed by another one / by none)", lo, hi, core.Pick(r, "", " and 65500..65600")))
+	core.Clause(r, "gz-member-boundaries", core.Opts{Rule: "a .gz file is a series of gzip members (RFC 1952; what cat a.gz b.gz and bgzip produce): wherever the member boundaries fall in the compressed file, File(path) yields what Reader yields on the concatenated contents; non-trivial = all"},
+		func(emit func(c06Member) bool) {
+			for _, f := range formats {
+				ends := []int{}
+				for e := lo; e <= hi; e++ {
+					ends = append(ends, e)
+				}
+				if r.Thorough() {
+					for e := 65500; e <= 65600; e++ {
+						ends = append(ends, e)
+					}
+				}
+				for _, e := range ends {
+					for _, gap := range []int{4096, 4097} {
+						if !emit(c06Member{f.Name, e, gap}) {
+							return
+						}
+					}
+				}
+			}
+		},
+		func(c c06Member) core.Outcome {
+			f := formatByName(c.Format)
+			sm := corpus(c.Format, "small")
+			parts := [][]byte{sm[0], sm[1%len(sm)], sm[2%len(sm)]}
+			m1, ok1 := gzMemberOfSize(parts[0], c.End1)
+			m2, ok2 := gzMemberOfSize(parts[1], c.Gap)
+			m3, _ := gzMemberOfSize(parts[2], 0)
+			if !ok1 || !ok2 {
+				return core.Outcome{Class: "HARNESS cannot build a member of that size", Skip: true}
+			}
+			disk := append(append(append([]byte{}, m1...), m2...), m3...)
+			data := append(append(append([]byte{}, parts[0]...), parts[1]...), parts[2]...)
+			path := filepath.Join(scratch, fmt.Sprintf("members-%s-%d-%d.gz", c.Format, c.End1, c.Gap))
+			if err := os.WriteFile(path, disk, 0o644); err != nil {
+				return core.Outcome{Class: "HARNESS cannot write scratch file", Skip: true}
+			}
+			defer os.Remove(path)
+			want, wp := refRead(f, data)
+			got, gp, over := f.File(path, 1<<20)
+			if over {
+				gp = "iterator did not end"
+			}
+			if wp != "" || gp != "" {
+				return core.Failf("%s: panic: Reader %q File %q", c.Format, wp, gp)
+			}
+			if !sameShape(got, want) {
+				return core.Failf("%s.File on a 3-member .gz (members end at compressed offsets %d, %d, %d) yields %s but Reader on the concatenated contents yields %s", c.Format, len(m1), len(m1)+len(m2), len(disk), trunc(renderObs(got), 300), trunc(renderObs(want), 300))
+			}
+			return core.Outcome{Class: fmt.Sprint("end1%4096=", min(c.End1%4096, 2), " items=", min(len(got), 2)), Nontrivial: true, Evals: 2}
 		})
 
 	core.Clause(r, "file-grid", core.Opts{Rule: "every format (SAM: File and FileHeader) x {plain, .gz written with compress/gzip} x content {empty file, one record, many records, a file whose decode ends in an error item, the 9 KiB file, the long-line file, a file with one line of 70 000 bytes, one with a line of 2 MiB, a ~300 KiB file} plus a multi-member .gz: File(path) yields what Reader yields on the bytes; a missing path yields exactly one item, an error; non-trivial = all"},
